@@ -1,5 +1,6 @@
 """C48 -- cached metadata is used only while the ebuild and every inherited eclass are unchanged (DESIGN.md section 4, C48)."""
 import itertools
+import os
 import z3
 from pyvc.api import Task, call, Interp, LoopSpec, Contract
 from pyvc.sym import (KInt, KStr, KSeq, KRef, SBool, SInt, SStr, SRef, SObj, Opt, Maybe, And, Or, Not, Implies, fresh_name)
@@ -312,6 +313,71 @@ def enum_update_metadata(seed):
             "through the real package_factory._update_metadata with a stub ebuild processor, eclass database and cache", "cases": cases, "failures": fails}
 
 
+def enum_eclass_dirs(seed):
+    """real eclass directories on disk, read through fresh eclass_cache.cache / StackedCaches objects after every edit (what a newly opened
+    repository does): an entry that records an eclass's earlier checksum is stale as soon as the file's content (or its place) is another,
+    whether the edit was in place, by replacement, a removal or a move to the overlay"""
+    import shutil
+    import tempfile
+    import pkgcore.ebuild.eclass_cache as EC
+    scratch = tempfile.mkdtemp(prefix="c48.", dir=os.environ.get("PYVC_SCRATCH", "/var/tmp"))
+    fails, cases = [], 0
+    try:
+        for stacked in (False, True):
+            for chf in ("md5", "mtime"):
+                for edit in ("none", "in_place_same_length", "in_place_longer", "replaced_by_rename", "removed", "moved_to_overlay", "other_eclass_added"):
+                    if edit == "moved_to_overlay" and not stacked:
+                        continue
+                    cases += 1
+                    root = os.path.join(scratch, f"r{cases}")
+                    main, over = os.path.join(root, "main/eclass"), os.path.join(root, "overlay/eclass")
+                    os.makedirs(main)
+                    os.makedirs(over)
+                    fp = os.path.join(main, "foo.eclass")
+                    open(fp, "w").write("take 1\n")
+                    os.utime(fp, (1000, 1000))
+                    open(os.path.join(main, "bar.eclass"), "w").write("bar\n")
+
+                    def open_db():
+                        if stacked:
+                            return EC.StackedCaches([EC.cache(over), EC.cache(main)])
+                        return EC.cache(main)
+                    db1 = open_db()
+                    ec = db1.get_eclass_data(["foo"])
+                    rec = [("foo", ((chf, getattr(ec["foo"], chf)),) if chf == "md5" else (("eclassdir", ec["foo"].eclassdir), ("mtime", ec["foo"].mtime)))]
+                    before = db1.rebuild_cache_entry(rec)
+                    if edit == "in_place_same_length":
+                        open(fp, "w").write("take 2\n")
+                        os.utime(fp, (2000, 2000))
+                    elif edit == "in_place_longer":
+                        open(fp, "a").write("more\n")
+                        os.utime(fp, (2000, 2000))
+                    elif edit == "replaced_by_rename":
+                        open(fp + ".new", "w").write("take 3\n")
+                        os.utime(fp + ".new", (3000, 3000))
+                        os.rename(fp + ".new", fp)
+                    elif edit == "removed":
+                        os.unlink(fp)
+                    elif edit == "moved_to_overlay":
+                        shutil.copy2(fp, os.path.join(over, "foo.eclass"))   # same content and mtime, another place
+                    elif edit == "other_eclass_added":
+                        open(os.path.join(main, "baz.eclass"), "w").write("baz\n")
+                    db2 = open_db()
+                    after = db2.rebuild_cache_entry(rec)
+                    # md5 entries survive a move (content is what counts); mtime entries record the directory as well
+                    want_valid = edit in ("none", "other_eclass_added") or (edit == "moved_to_overlay" and chf == "md5")
+                    model = {"layout": "stacked (overlay over main)" if stacked else "single", "recorded_by": chf, "edit": edit}
+                    if before is None and len(fails) < 4:
+                        fails.append({"model": model, "detail": f"{model}: the entry just recorded from the eclass directory does not validate against it"})
+                    elif (after is not None) != want_valid and len(fails) < 4:
+                        fails.append({"model": model, "detail": f"{model}: a freshly opened eclass cache says the entry recorded before the edit is {'valid' if after is not None else 'stale'}; "
+                                                                f"the recorded eclass is {'unchanged' if want_valid else 'no longer what was recorded'}"})
+    finally:
+        shutil.rmtree(scratch, ignore_errors=True)
+    return {"name": "C48.eclass_directories.bounded_enumeration", "bound": "single and stacked on-disk eclass directories x entries recorded by md5 / by directory+mtime x 7 edits (none, in place with the same or another length, "
+            "replacement by rename, removal, move to the overlay, an unrelated eclass added), each read through freshly built cache objects before and after", "cases": cases, "failures": fails}
+
+
 def t_get_metadata(ex):
     """package_factory._get_metadata over a stack of two caches with every combination of entry present / absent / unreadable, valid / stale,
     read-only or not: a cached entry is returned only when validate_entry accepted it against the ebuild's current hash and the factory's
@@ -390,6 +456,7 @@ def tasks():
     return [
         Task("C48.rebuild_cache_entry", t_rebuild, [(F_ECL, "base.rebuild_cache_entry")], enumerate=enum_rebuild),
         Task("C48.validate_entry", t_validate, [(F_CACHE, "base.validate_entry")], enumerate=enum_validate_histories),
+        Task("C48.eclass_directories", None, [(F_ECL, "cache._load_eclasses"), (F_ECL, "StackedCaches._load_eclasses"), (F_ECL, "base.get_eclass_data")], enumerate=enum_eclass_dirs),
         Task("C48.get_metadata", t_get_metadata, [("src/pkgcore/ebuild/ebuild_src.py", "package_factory._get_metadata")]),
         Task("C48.update_metadata", None, [("src/pkgcore/ebuild/ebuild_src.py", "package_factory._update_metadata")], enumerate=enum_update_metadata),
     ]
